@@ -592,6 +592,9 @@ type RevHandler struct {
 func (h *RevHandler) Who(ctx context.Context, tok int) (string, error) {
 	simrt.Rec("revh", strconv.Itoa(tok), h.name, 0)
 	t := h.e.Tok(tok)
+	if t.Kind == "rev" {
+		h.e.Arrive() // many-pending family: answer only when every reverse call has arrived
+	}
 	if t.Hold {
 		simrt.Yield("revhandler-" + strconv.Itoa(tok))
 	}
